@@ -91,11 +91,11 @@ class Engine(DbEngine):
         for i in range(150 if tier == "quick" else 3000):
             (gcls, line), _meta = e14.make_growth_case(rng, probe=True)
             out.append(("refs-growth-race", line))
-        # a store opened while its file has whole spare chunks beyond the end marker (what a growth that failed part-way, or
-        # a kill inside a multi-chunk growth, leaves behind): events stored afterwards, across the next growth steps, must
+        # a growth that failed part-way, then either the same Store keeps being used (mapping, file and remembered length must
+        # still agree) or the store is reopened while its file has whole spare chunks beyond the end marker: events stored afterwards, across the next growth steps, must
         # keep reading back, by the offset their store returned, as the bytes submitted
         import eng_c04
-        out += eng_c04.failed_growth_cases(rng, tier, cls="spare-chunks", reopen_after_failure=1.0, n=(8 if tier == "quick" else 150))
+        out += eng_c04.failed_growth_cases(rng, tier, cls="spare-chunks", reopen_after_failure=0.5, n=(10 if tier == "quick" else 200))
         return out
 
     def skip_model(self, gcls):
